@@ -17,6 +17,7 @@ import asyncio.base_events as BE
 import asyncio.events as EV
 import inspect
 import os
+import sys
 from datetime import timedelta
 
 import eldrv as E
@@ -148,12 +149,29 @@ def targets(fine, ts):
 # one run
 # --------------------------------------------------------------------------
 
+class ATC(E.TC):
+    """coarse mode: `cancel_handle` running on the loop thread is ONE step of the model (nobody else can touch
+    that closure's handle list: Disposable lets one dispose() through, stage2 runs on the same thread), so the
+    traced line of do_cancel_handles does not yield when it executes under cancel_handle"""
+
+    def yield_point(self, kind="call"):
+        if kind == "line" and not self.fine:
+            f = sys._getframe(1)
+            for _ in range(6):
+                if f is None:
+                    break
+                if f.f_code.co_name == "cancel_handle" and f.f_code.co_filename == ATM_PATH:
+                    return
+                f = f.f_back
+        super().yield_point(kind)
+
+
 def run_case(case, chooser, fine=False, max_steps=3000):
     """must be called inside `with E.rebound()`"""
     clock = kt.Clock(case.get("t0", 0), yield_on_read=False)
     E.RB.set_clock(clock)
     ts = bool(case.get("ts", True))
-    c = E.TC(targets(fine, ts), clock=clock, fine=fine, max_steps=max_steps)
+    c = ATC(targets(fine, ts), clock=clock, fine=fine, max_steps=max_steps)
     loop = kt.CLoop(clock)
     loop.set_exception_handler(lambda lp, ctx: c.emit("cberr", 0))
     sch = (ATM.AsyncIOThreadSafeScheduler if ts else ASM.AsyncIOScheduler)(loop)
